@@ -32,12 +32,12 @@ fi
 RES=""
 for C in "$@"; do
   T0=$(date +%s)
-  ( cd /verif && GASOL_REPO="$WT" timeout 3000 ./check "$C" --tier quick > "/tmp/mv_${NAME}_$C.log" 2>&1 ); RC=$?
+  ( cd /verif && VERIF_EVIDENCE_DIR=/tmp/mv_evidence_$NAME GASOL_REPO="$WT" timeout 3000 ./check "$C" --tier quick > "/tmp/mv_${NAME}_$C.log" 2>&1 ); RC=$?
   T1=$(date +%s)
   NV=$(grep -c "^VIOLATION" "/tmp/mv_${NAME}_$C.log")
   FIRST=$(grep -m1 "detail:" "/tmp/mv_${NAME}_$C.log" | cut -c1-300)
   RES="$RES{\"check\":\"$C\",\"exit\":$RC,\"violations\":$NV,\"seconds\":$((T1-T0)),\"first\":$(/venv/bin/python -c 'import json,sys;print(json.dumps(sys.argv[1]))' "$FIRST")},"
 done
 git -C /repo worktree remove --force "$WT"
-rm -f /tmp/mv_$NAME.junit.xml
+rm -rf /tmp/mv_$NAME.junit.xml /tmp/mv_evidence_$NAME
 echo "{\"name\":\"$NAME\",\"demo_clean_exit\":$CLEAN,\"demo_mutant_exit\":$MUT,\"stable_tests\":\"$TESTS\",\"checks\":[${RES%,}]}" | tee "$OUT/result.json"
